@@ -1,5 +1,6 @@
 import os
 ROOT = os.path.dirname(os.path.dirname(os.path.dirname(os.path.abspath(__file__))))
-WORK = os.path.join(ROOT, '.work')
+WORK = os.environ.get('VERIF_WORK') or os.path.join(ROOT, '.work')      # scratch; tools/mutest.sh uses a private one so that concurrent runs do not collide
+EXT_CACHE = os.path.join(ROOT, '.work', 'ext')                              # compiled kernels, named by the hash of extension.pyx (shared)
 SPEC = os.path.join(ROOT, 'spec')
 REPO = os.environ.get('VERIF_REPO', '/repo')
